@@ -430,7 +430,11 @@ func execShareWalk(f []string) vlib.Res {
 	defer w.Close()
 	p := l3.NewPipe(w, l3.PipeOpts{DNSSEC: true, Tweak: func(cfg *config.Config) { cfg.QnameMinLevel = 5 }})
 	defer p.Close()
-	if r := p.Query(fmt.Sprintf("x.warm%d.", walkSeq), dns.TypeA, l3.Flags{DO: true}); r == nil {
+	// prime the trust chain with a name that EXISTS: a negative warm-up would leave an NSEC
+	// in the cache from which the next denial is synthesised without asking the root
+	z := w.AddZone("exist.", l3.ZoneOpts{Signed: true, PublishDS: true})
+	z.Add("www.exist. 300 IN A 192.0.2.7")
+	if r := p.Query("www.exist.", dns.TypeA, l3.Flags{DO: true}); r == nil || len(r.Answer) == 0 {
 		return vlib.Res{Impl: "warmup-failed", Oracle: "-"}
 	}
 	tld := fmt.Sprintf("gone%d.", walkSeq)
